@@ -183,6 +183,11 @@ func SenderConfig(prop string, r *Rand, tier string) map[string]int64 {
 	if r.Bool(30) {
 		c["ag_no_prev_ler"] = 1
 	}
+	// L2 reorgs of blocks no accepted certificate covers yet (blocks of a certificate in error included, PP only)
+	c["w_l2reorg"] = 0
+	if r.Bool(30) {
+		c["w_l2reorg"] = int64(r.Range(1, 6))
+	}
 	if r.Bool(15) { // fault-free batch
 		c["w_fault"], c["w_lost"], c["w_crash"], c["w_losedb"], c["w_savefault"] = 0, 0, 0, 0, 0
 	}
@@ -248,6 +253,8 @@ type senderWorld struct {
 	panicMsg string
 	// the Agglayer's records were replaced by contradicting ones: only the refusal oracle applies from here on
 	contradicted bool
+	// deposit counts whose bridge was replaced by an L2 reorg (probe only)
+	replacedDeposits map[uint32]bool
 }
 
 // senderOwns: which oracle groups a property's check reports. The same runs feed six properties;
@@ -336,6 +343,12 @@ func (s *senderWorld) genL2Block(seed uint64) MBlock {
 			ri = 0
 		}
 		gi := refGlobalIndex(mainnet, ri, li)
+		if mainnet && r.Bool(12) {
+			// not canonical but accepted by bridge contracts that ignore the rollup bits of a mainnet index:
+			// mainnet flag with a non-zero rollup part. Every place must carry the SAME value for it.
+			gi = new(big.Int).Or(gi, new(big.Int).Lsh(new(big.Int).SetUint64(uint64(1+r.Intn(0xFFFF))), 32))
+			s.rec.Stats.Inc("mainnet_global_index_with_rollup_bits")
+		}
 		b.Events = append(b.Events, bridgesync.Event{Claim: &bridgesync.Claim{
 			BlockNum: num, BlockPos: pos, FromAddress: genAddr(r), TxHash: genHash(r), GlobalIndex: gi,
 			OriginNetwork: genNet(r), OriginAddress: genAddr(r), DestinationAddress: genAddr(r), Amount: genAmount(r),
@@ -343,6 +356,15 @@ func (s *senderWorld) genL2Block(seed uint64) MBlock {
 			GlobalExitRoot: leaf.GER, DestinationNetwork: genNet(r), Metadata: meta, IsMessage: r.Bool(30), BlockTimestamp: ts}})
 	}
 	return b
+}
+
+// canonGI: the canonical form of an on-chain global index (a mainnet index has no rollup part).
+func canonGI(gi *big.Int) *big.Int {
+	if gi.Bit(64) == 0 {
+		return gi
+	}
+	leaf := new(big.Int).And(gi, big.NewInt(0xFFFFFFFF))
+	return new(big.Int).SetBit(leaf, 64, 1)
 }
 
 // refGlobalIndex is the bridge contract's layout: mainnet<<64 | rollup<<32 | leaf.
@@ -561,6 +583,9 @@ func (s *senderWorld) onSubmit(sub *Submission) {
 		return
 	}
 	bs, cs := s.eventsIn(sub.From, sub.To)
+	if sub.ReplacesInError != nil && len(bs) > 0 && s.replacedDeposits[bs[len(bs)-1].DepositCount] {
+		s.rec.Stats.Inc("replacements_whose_last_bridge_was_replaced_by_a_reorg")
+	}
 	if len(c.BridgeExits) != len(bs) {
 		s.fail("content", "c03/exits-count", "certificate for blocks %d..%d carries %d bridge exits; those blocks have %d bridge events", sub.From, sub.To, len(c.BridgeExits), len(bs))
 		return
@@ -587,9 +612,14 @@ func (s *senderWorld) onSubmit(sub *Submission) {
 			return
 		}
 		// ---- C19: the wire message carries the on-chain global index ----
-		if wireGlobalIndex(ibe).Cmp(cl.GlobalIndex) != 0 {
+		if wireGlobalIndex(ibe).Cmp(canonGI(cl.GlobalIndex)) != 0 {
 			s.fail("global-index", "c19/wire-global-index", "imported exit %d carries global index %s, the claim event has %s", i, wireGlobalIndex(ibe), cl.GlobalIndex)
 			return
+		}
+		if canonGI(cl.GlobalIndex).Cmp(cl.GlobalIndex) != 0 {
+			// a mainnet index with rollup bits is not a canonical value (C19's quantifier): only "every place carries
+			// the same value" (the canonical one) is judged for it
+			continue
 		}
 		mf, ri, li, err := bridgesync.DecodeGlobalIndex(cl.GlobalIndex)
 		if err != nil || refGlobalIndex(mf, ri, li).Cmp(cl.GlobalIndex) != 0 || bridgesync.GenerateGlobalIndex(mf, ri, li).Cmp(cl.GlobalIndex) != 0 {
@@ -938,7 +968,15 @@ func runSender(prop string, tr *Trace, sc *Script, rec *Recorder, scratch string
 	gen := func(r *Rand) (Op, bool) {
 		labels := s.w.ParkedLabels()
 		wts := []int{int(cfg["w_l1mine"]), int(cfg["w_l1fin"]), int(cfg["w_l1sync"]), int(cfg["w_l2block"]), int(cfg["w_epoch"]), int(cfg["w_time"]),
-			int(cfg["w_rel"]), int(cfg["w_move"]), int(cfg["w_fault"]), int(cfg["w_lost"]), int(cfg["w_crash"]), int(cfg["w_losedb"]), int(cfg["w_savefault"]), int(cfg["w_pvodd"]), int(cfg["w_opt"]), int(cfg["w_crashsubmit"]), int(cfg["w_contradict"])}
+			int(cfg["w_rel"]), int(cfg["w_move"]), int(cfg["w_fault"]), int(cfg["w_lost"]), int(cfg["w_crash"]), int(cfg["w_losedb"]), int(cfg["w_savefault"]), int(cfg["w_pvodd"]), int(cfg["w_opt"]), int(cfg["w_crashsubmit"]), int(cfg["w_contradict"]), int(cfg["w_l2reorg"]), int(cfg["w_l2reorg"])}
+		if o := s.ag.open(); o == nil || cfg["fep"] == 1 || s.nodeIsBuilding() || o.To <= s.l2ReorgFloorWithout(o) {
+			wts[18] = 0
+		}
+		if s.l2ReorgFloor() >= s.l2m.LastBlock() || s.nodeIsBuilding() {
+			wts[17] = 0
+		} else if s.ag.Latest != nil && s.ag.Latest.Status == agInError {
+			wts[17] *= 5 // the blocks of a certificate in error are about to be certified again
+		}
 		if len(labels) == 0 {
 			wts[6], wts[8], wts[9] = 0, 0, 0
 		}
@@ -998,6 +1036,10 @@ func runSender(prop string, tr *Trace, sc *Script, rec *Recorder, scratch string
 			return Op{K: "crashsubmit"}, true
 		case 16:
 			return Op{K: "contradict", A: []int64{int64(r.Intn(3))}}, true
+		case 18:
+			return Op{K: "errreorg", A: []int64{int64(r.U64() >> 1)}}, true
+		case 17:
+			return Op{K: "l2reorg", A: []int64{int64(1 + r.Intn(3)), int64(r.U64() >> 1), int64(r.Intn(3)), int64(r.Intn(2))}}, true
 		case 13:
 			// the prover answers with a shorter range / has no proof yet / times out
 			return Op{K: "rel", S: "pv", A: []int64{[]int64{replyStale, replyStale, replyNotFound, replyDeadline}[r.Intn(4)]}}, true
@@ -1032,6 +1074,86 @@ func runSender(prop string, tr *Trace, sc *Script, rec *Recorder, scratch string
 				return v
 			}
 			rec.Step("B")
+		case "errreorg":
+			// the open certificate is rejected and, before the node builds its replacement, the L2 chain replaces the
+			// blocks from the certificate's last bridge on with the same transactions carrying other values
+			o := s.ag.open()
+			if o == nil || cfg["fep"] == 1 || s.nodeIsBuilding() {
+				return nil
+			}
+			bs, _ := s.eventsIn(o.From, o.To)
+			if len(bs) == 0 || bs[len(bs)-1].BlockNum <= s.l2ReorgFloorWithout(o) {
+				return nil
+			}
+			s.ag.Move(true)
+			rec.Stats.Inc("agglayer_inerror")
+			first := bs[len(bs)-1].BlockNum
+			var old []MBlock
+			for _, b := range s.l2m.Blocks {
+				if b.Num >= first {
+					old = append(old, b)
+				}
+			}
+			if err := s.l2s.Reorg(first); err != nil {
+				return &Violation{Oracle: "harness", Detail: fmt.Sprintf("l2 store Reorg(%d): %v", first, err)}
+			}
+			s.l2m.Rewind(first)
+			if v := s.remineSameShape(old, NewRand(uint64(op.Arg(0)))); v != nil {
+				return v
+			}
+			rec.Stats.Inc("l2_reorgs")
+			rec.Stats.Inc("l2_reorgs_of_blocks_of_a_certificate_in_error")
+			rec.Step("EG")
+		case "l2reorg":
+			// the L2 chain replaces its last blocks; never a block an accepted certificate covers, never while the
+			// node is in the middle of building a certificate (it would submit the old fork's content: a race the node
+			// cannot see, outside the properties)
+			if s.nodeIsBuilding() {
+				return nil
+			}
+			floor, last := s.l2ReorgFloor(), s.l2m.LastBlock()
+			if last <= floor {
+				return nil
+			}
+			first := floor + 1
+			if d := uint64(op.Arg(0)); d <= last && last+1-d > floor {
+				first = last + 1 - d
+			}
+			if err := s.l2s.Reorg(first); err != nil {
+				return &Violation{Oracle: "harness", Detail: fmt.Sprintf("l2 store Reorg(%d): %v", first, err)}
+			}
+			dcBefore := s.l2m.DepositCount()
+			inErr := s.ag.Latest != nil && s.ag.Latest.Status == agInError
+			var old []MBlock
+			for _, b := range s.l2m.Blocks {
+				if b.Num >= first {
+					old = append(old, b)
+				}
+			}
+			dropped := s.l2m.Rewind(first)
+			// the new fork is there at once (a reorg replaces blocks, the syncer sees the rewind and the new blocks
+			// between two polls of the aggsender)
+			rr := NewRand(uint64(op.Arg(1)))
+			if op.Arg(3) == 1 {
+				if v := s.remineSameShape(old, rr); v != nil {
+					return v
+				}
+			} else {
+				// same length, one shorter or one longer, other content
+				for i := 0; i < dropped-1+int(op.Arg(2)); i++ {
+					if v := addL2(rr.U64()); v != nil {
+						return v
+					}
+				}
+			}
+			rec.Stats.Inc("l2_reorgs")
+			if inErr {
+				rec.Stats.Inc("l2_reorgs_of_blocks_of_a_certificate_in_error")
+				if s.l2m.DepositCount() == dcBefore {
+					rec.Stats.Inc("l2_reorgs_in_error_same_deposit_count")
+				}
+			}
+			rec.Step("G")
 		case "epoch":
 			if s.ep.Tick() {
 				rec.Stats.Inc("epoch_ticks_delivered")
@@ -1217,6 +1339,16 @@ func (s *senderWorld) contradict(kind int) *Violation {
 	if kind == 0 && last.Status == rowInError {
 		kind = 2 // a different certificate over one in error is a legitimate replacement
 	}
+	if kind == 0 {
+		// the recovery compares the LATEST certificates of both sides; when the Agglayer also holds a certificate the
+		// node has not recorded yet (accepted, node died before storing it) a differing older one is not looked at
+		// (observation, DESIGN 14.4): that mix is not generated
+		for _, c := range s.ag.Certs {
+			if c.Height > last.Height {
+				kind = 1
+			}
+		}
+	}
 	if kind == 2 && last.Height == 0 {
 		kind = 1
 	}
@@ -1306,6 +1438,77 @@ func (s *senderWorld) lastSendable(target uint64) uint64 {
 		}
 	}
 	return last
+}
+
+// remineSameShape: the dropped blocks come back with the same transactions carrying other values (same number of
+// bridges and claims per block, other amounts / receivers / metadata, other hashes).
+func (s *senderWorld) remineSameShape(old []MBlock, rr *Rand) *Violation {
+	for _, ob := range old {
+		nb := MBlock{Num: ob.Num, Hash: blockHash(ob.Num, rr.U64())}
+		for _, e := range ob.Events {
+			ev := cloneBridgeEvent(e.(bridgesync.Event))
+			if ev.Bridge != nil {
+				if s.replacedDeposits == nil {
+					s.replacedDeposits = map[uint32]bool{}
+				}
+				s.replacedDeposits[ev.Bridge.DepositCount] = true
+				ev.Bridge.Amount, ev.Bridge.DestinationAddress, ev.Bridge.TxHash = genAmount(rr), genAddr(rr), genHash(rr)
+				if len(ev.Bridge.Metadata) > 0 {
+					ev.Bridge.Metadata = append([]byte{byte(rr.Intn(256))}, ev.Bridge.Metadata[1:]...)
+				}
+			}
+			if ev.Claim != nil {
+				ev.Claim.TxHash = genHash(rr)
+			}
+			nb.Events = append(nb.Events, ev)
+		}
+		if err := s.l2s.ProcessBlock(nb); err != nil {
+			return &Violation{Oracle: "harness", Detail: fmt.Sprintf("l2 store ProcessBlock(%d): %v", nb.Num, err)}
+		}
+		s.l2m.Apply(nb)
+	}
+	s.rec.Stats.Inc("l2_reorgs_same_shape")
+	return nil
+}
+
+// l2ReorgFloor: the last L2 block that may not be reorged any more: everything an accepted certificate covers
+// (a certificate in error does not count in the PP flow, which rebuilds its range; the aggchain-prover flow sends
+// the same range with the stored proof again, so there it counts), and the prover's start block.
+func (s *senderWorld) l2ReorgFloor() uint64 {
+	floor := uint64(s.cfg["start_l2"])
+	for _, c := range s.ag.Certs {
+		if c.Status == agInError && s.cfg["fep"] == 0 {
+			continue
+		}
+		floor = max(floor, c.To)
+	}
+	for _, r := range s.pv.Resps {
+		floor = max(floor, r.RequestedEnd)
+	}
+	return floor
+}
+
+// l2ReorgFloorWithout: the reorg floor if certificate o were in error.
+func (s *senderWorld) l2ReorgFloorWithout(o *AgCert) uint64 {
+	floor := uint64(s.cfg["start_l2"])
+	for _, c := range s.ag.Certs {
+		if c == o || (c.Status == agInError && s.cfg["fep"] == 0) {
+			continue
+		}
+		floor = max(floor, c.To)
+	}
+	return floor
+}
+
+// nodeIsBuilding: an outgoing call of the certificate-building path is parked.
+func (s *senderWorld) nodeIsBuilding() bool {
+	for _, p := range s.w.Parked() {
+		switch p.method {
+		case "SubmitCertificate", "GenerateAggchainProof", "GenerateOptimisticAggchainProof", "HeaderByNumber", "GetInjectedGERsForRange":
+			return true
+		}
+	}
+	return false
 }
 
 // reviveIfExited restarts the node when its process exited at start-up (deliberate panic on a
@@ -1487,7 +1690,7 @@ func (s *senderWorld) drain(syncL1 func(uint64) *Violation, addL2 func(uint64) *
 		wantExits = append(wantExits, refBridgeLeaf(b.LeafType, b.OriginNetwork, b.OriginAddress, b.DestinationNetwork, b.DestinationAddress, b.Amount, b.Metadata))
 	}
 	for _, c := range cs {
-		wantGI = append(wantGI, c.GlobalIndex.String())
+		wantGI = append(wantGI, canonGI(c.GlobalIndex).String())
 	}
 	if fmt.Sprint(gotExits) != fmt.Sprint(wantExits) {
 		return &Violation{Oracle: "history", Sig: "c02/exits-not-exactly-once", Detail: fmt.Sprintf("the settled certificates carry %d bridge exits for blocks 1..%d, the chain has %d there (or their order/content differs)", len(gotExits), next-1, len(wantExits))}
